@@ -244,7 +244,20 @@ def _mk(name: str) -> Program:
     raise KeyError(name)
 
 
+def dim_no_origin_scatter_loop(c):
+    # a loop body that needs half of a "2*b" dimension (no origin for b) and also scatters
+    def body(i, v):
+        z = jnp.zeros((c.shape[0] // 2, 3), v.dtype)
+        return v.at[0].add(1.0) + jnp.sum(z)
+
+    return lax.fori_loop(0, 2, body, c)
+
+
 def _mk_extra(name: str) -> Program:
+    if name == "dim_no_origin_scatter@loop":
+        p = _p(name, lambda x: dim_no_origin_scatter_loop(x), [("2*b", 3)])
+        p.meta["input_sets"] = [[_XS], [_XS[:2]]]
+        return p
     f = {"dim_no_origin@fn": dim_no_origin_fn, "dim_no_origin@nested_fn": dim_no_origin_nested}[name]
     p = _p(name, lambda x: f(x), [("B", 3)])
     p.meta["input_sets"] = [[_XS], [_XS[:1]], [np.concatenate([_XS, _XS])]]
